@@ -267,6 +267,43 @@ func c11Framing(p *Program, r *Report) {
 					}
 				}
 			}
+			// ... or one buffer of 4+len(payload) bytes: prefix written at its start, payload copied to offset 4, the buffer returned
+			if !appended && payload != nil {
+				if mk, isMk := pref.(*ssa.MakeSlice); isMk {
+					sized := false
+					if add, isAdd := mk.Len.(*ssa.BinOp); isAdd && add.Op == token.ADD {
+						for _, pair := range [][2]ssa.Value{{add.X, add.Y}, {add.Y, add.X}} {
+							if k, isK := constInt(pair[0]); isK && k == 4 {
+								if lc, isL := pair[1].(*ssa.Call); isL {
+									if b, isB := lc.Call.Value.(*ssa.Builtin); isB && b.Name() == "len" && strip(lc.Call.Args[0]) == strip(payload) {
+										sized = true
+									}
+								}
+							}
+						}
+					}
+					copied, returned := false, false
+					for _, b := range rm.EncodeLen.Blocks {
+						for _, in := range b.Instrs {
+							if cc, isC := in.(*ssa.Call); isC {
+								if bi, isB := cc.Call.Value.(*ssa.Builtin); isB && bi.Name() == "copy" && len(cc.Call.Args) == 2 && strip(cc.Call.Args[1]) == strip(payload) {
+									if sl, isSl := cc.Call.Args[0].(*ssa.Slice); isSl && strip(sl.X) == ssa.Value(mk) && sl.High == nil {
+										if lo, isK := constInt(sl.Low); isK && lo == 4 {
+											copied = true
+										}
+									}
+								}
+							}
+							if ret, isR := in.(*ssa.Return); isR && strip(retOperand(ret, 0)) == ssa.Value(mk) {
+								returned = true
+							}
+						}
+					}
+					if sized && copied && returned {
+						appended, plen = true, 4
+					}
+				}
+			}
 			fromEncode := payload != nil && anyContains(p.origins(payload), "EncodeEnvelopWithRemoting")
 			okW = plen == 4 && payload != nil && appended && fromEncode
 			desc = fmt.Sprintf("prefix=%d bytes order=%s payload-from-encoder=%v append(prefix,payload)=%v", plen, wOrder, fromEncode, appended)
@@ -274,7 +311,7 @@ func c11Framing(p *Program, r *Report) {
 	}
 	r.Check(okW, "frame writer: length prefix of exactly the payload", rm.EncodeLen.Pos(), "4-byte prefix = uint32(len(payload)) with a fixed byte order, result = prefix followed by the payload ("+desc+")")
 	// reader
-	g := p.ig(rm.ReadFn)
+	g := p.igx(rm.ReadFn)
 	var fulls []*ssa.Call
 	var lenCall *ssa.Call
 	for _, in := range g.Nodes {
@@ -309,7 +346,7 @@ func c11Framing(p *Program, r *Report) {
 		// the decoded bytes are that buffer
 		dec := false
 		for _, in := range g.Nodes {
-			if c := callOf(in); c != nil && c.StaticCallee() != nil && c.StaticCallee().Name() == "DecodeEnvelopWithRemoting" && is2 && strip(c.Args[1]) == ssa.Value(b2) {
+			if c := callOf(in); c != nil && c.StaticCallee() != nil && c.StaticCallee().Name() == "DecodeEnvelopWithRemoting" && is2 && g.res(c.Args[1]) == ssa.Value(b2) {
 				dec = true
 			}
 		}
@@ -404,7 +441,7 @@ func c11ReadAhead(p *Program, r *Report) {
 		r.Lookup("no transient buffered reader over the connection", rm.ReadFn.Pos(), "no bufio constructor is called in the remoting packages (positive witness: c11-bufio-per-frame)")
 	}
 	// frames are read only through exact-length reads
-	g := p.ig(rm.ReadFn)
+	g := p.igx(rm.ReadFn)
 	raw := 0
 	for _, in := range g.Nodes {
 		if c := callOf(in); c != nil && c.IsInvoke() && c.Method.Name() == "Read" && typeIs(c.Value.Type(), "net", "Conn") {
@@ -416,7 +453,7 @@ func c11ReadAhead(p *Program, r *Report) {
 
 // rearmNodes / killNodes / eofEdges of the frame reader.
 func (p *Program) readerEvents(rm *remRoles) (g *IG, rearm, kill map[int]bool, eof map[edge]bool) {
-	g = p.ig(rm.ReadFn)
+	g = p.igx(rm.ReadFn)
 	isRearm := func(in ssa.Instruction) bool {
 		c := callOf(in)
 		if c == nil || !c.IsInvoke() || c.Method.Name() != "TellSelf" || len(c.Args) != 1 {
@@ -582,8 +619,8 @@ func c11Roles(p *Program, r *Report) {
 	if rm == nil {
 		return
 	}
-	enc := p.Func("internal/remoting/serialize", "EncodeEnvelopWithRemoting")
-	dec := p.Func("internal/remoting/serialize", "DecodeEnvelopWithRemoting")
+	enc := p.streamOwner(p.Func("internal/remoting/serialize", "EncodeEnvelopWithRemoting"))
+	dec := p.streamOwner(p.Func("internal/remoting/serialize", "DecodeEnvelopWithRemoting"))
 	if enc == nil || dec == nil {
 		r.Unresolved("envelope encoder/decoder")
 		return
@@ -660,13 +697,13 @@ func c11Roles(p *Program, r *Report) {
 		}
 	}
 	// (c) frame reader hands results to the handler in the same order
-	g := p.ig(rm.ReadFn)
+	g := p.igx(rm.ReadFn)
 	var dcall *ssa.Call
 	var hcall *ssa.CallCommon
 	var hpos token.Pos
 	for _, in := range g.Nodes {
 		if c, ok := in.(*ssa.Call); ok {
-			if c.Call.StaticCallee() == dec {
+			if y := c.Call.StaticCallee(); y != nil && (y == dec || p.streamOwner(y) == dec) {
 				dcall = c
 			}
 			if c.Call.IsInvoke() && c.Call.Method.Name() == "HandleRemotingEnvelop" {
